@@ -243,6 +243,24 @@ func ruleWorkspaceApplies(c *Ctx) {
 				c.check(!indexSkipped, "C12-APPLY", funcName(f), "a parsed text always replaces the file's index entry", ins.Pos(),
 					"every path from parsing the new text to the return stores the new per-file index",
 					"after the new text of a file was parsed the update can return without storing the file's new index entry")
+				// ... and whether the handed text is parsed at all does not depend on the text (a checksum or
+				// "same as last time" memo kept next to the tree goes stale whenever the tree changes by another
+				// route: a reload from disk, a file that left and re-entered the include tree)
+				textDep := ""
+				for _, cc := range append(controlCondsPol(b), controlDeps(b)...) {
+					sl := backSlice(cc.Cond)
+					for _, a := range call.Call.Args {
+						if p, ok := stripConv(a).(*ssa.Parameter); ok && p.Parent() == f && types.TypeString(p.Type(), nil) == "string" && sl[ssa.Value(p)] {
+							// a test of the path (membership, emptiness) also mentions a string parameter: only the text counts
+							if isTextArgOf(call, p) {
+								textDep = c.P.pos(cc.Cond.Pos())
+							}
+						}
+					}
+				}
+				c.check(textDep == "", "C12-APPLY", funcName(f), "a handed text is parsed whatever it says", ins.Pos(),
+					"no condition on the way to the parse depends on the text",
+					"whether the handed text is parsed and applied depends on the text itself (condition at "+textDep+": a checksum or equality memo): the memo describes what was handed in last, not what the workspace holds - after the file was reloaded by another route the same text is skipped although the tree differs")
 			}
 		}
 	}
@@ -2414,4 +2432,46 @@ func ruleServerCaches(c *Ctx) {
 		return
 	}
 	ruleCacheFresh(c, h, store, docField)
+}
+
+// isTextArgOf: p is the string argument of the parse call that carries the text (not the path): when the call
+// takes two string parameters of f, the text is the one that is not used as a map key or passed to path functions
+// anywhere in f; with a single string argument it is that one.
+func isTextArgOf(call *ssa.Call, p *ssa.Parameter) bool {
+	f := p.Parent()
+	var strs []*ssa.Parameter
+	for _, a := range call.Call.Args {
+		if q, ok := stripConv(a).(*ssa.Parameter); ok && q.Parent() == f && types.TypeString(q.Type(), nil) == "string" {
+			strs = append(strs, q)
+		}
+	}
+	if len(strs) <= 1 {
+		return true
+	}
+	// a path is used as a key or handed to methods that look files up; the text is only parsed / hashed / compared
+	usedAsKey := func(q *ssa.Parameter) bool {
+		for _, r := range *q.Referrers() {
+			switch x := r.(type) {
+			case *ssa.Lookup:
+				if x.Index == ssa.Value(q) {
+					return true
+				}
+			case *ssa.MapUpdate:
+				if x.Key == ssa.Value(q) {
+					return true
+				}
+			}
+		}
+		return false
+	}
+	if usedAsKey(p) {
+		return false
+	}
+	for _, q := range strs {
+		if q != p && usedAsKey(q) {
+			return true
+		}
+	}
+	// fall back on position: the text follows the path
+	return strs[len(strs)-1] == p
 }
